@@ -2,7 +2,8 @@
 """Runs every seeded mutant against the checks of the properties it affects and writes seeded/MATRIX.md
 and seeded/<id>/result.json.  Works on the checkout named by FLOWCAL_REPO (default /repo), which must be clean;
 each patch is applied, the checks are run, and the patch is reverted.
-usage: tools/mutant_matrix.py [--tier quick] [--only <substr>] [--all-checks]"""
+usage: tools/mutant_matrix.py [--tier quick] [--only <substr>] [--all-checks]      (VERIF_SEED in the environment selects the seed;
+with --only or a seed other than 0 the summary goes to seeded/MATRIX-<tag>.md instead of seeded/MATRIX.md)"""
 import json, os, subprocess, sys, time
 ROOT = os.path.dirname(os.path.dirname(os.path.abspath(__file__)))
 REPO = os.environ.get('FLOWCAL_REPO', '/repo')
@@ -44,11 +45,14 @@ for d in sorted(os.listdir(os.path.join(ROOT, 'seeded'))):
                       'first': next((l.strip() for l in c.stdout.splitlines() if l.startswith('  ')), '')[:200], 's': round(time.time() - t0, 1)}
     finally:
         sh('git -C %s checkout -- .' % REPO)
-    json.dump({'ran': time.strftime('%Y-%m-%d %H:%M'), 'repo_head': sh('git -C %s rev-parse --short HEAD' % REPO).stdout.strip(), 'results': res},
+    if os.environ.get('VERIF_SEED', '0') == '0':
+      json.dump({'ran': time.strftime('%Y-%m-%d %H:%M'), 'repo_head': sh('git -C %s rev-parse --short HEAD' % REPO).stdout.strip(), 'results': res},
               open(os.path.join(p, 'result.json'), 'w'), indent=1)
     rows.append((d, meta['property'], 'detected' if any(v['exit'] == 1 for v in res.values()) else 'MISSED', res))
     print(d, rows[-1][2], {k: v['exit'] for k, v in res.items()}, flush=True)
-with open(os.path.join(ROOT, 'seeded', 'MATRIX.md'), 'w') as f:
+seed = os.environ.get('VERIF_SEED', '0')
+tag = ('-seed%s' % seed if seed != '0' else '') + ('-only-%s' % only if only else '')
+with open(os.path.join(ROOT, 'seeded', 'MATRIX%s.md' % tag), 'w') as f:
     f.write('# Seeded changes vs checks (quick tier)\n\n| seeded change | property | outcome | checks run (exit code; 1 = VIOLATION reported) |\n|---|---|---|---|\n')
     for d, pid, st, res in rows:
         f.write('| %s | %s | %s | %s |\n' % (d, pid, st, ', '.join('%s:%d%s' % (k, v['exit'], ' (no-failing-input-found)' if v['no_failing_input'] else '') for k, v in res.items())))
